@@ -65,10 +65,24 @@ def params_of(g):
     )
 
 
-def dask_rows(X, chunks):
+def dask_rows(X, chunks, unknown=False):
+    """Row-chunked Dask array over X.  unknown=True: the same rows and blocks, but obtained by a boolean selection
+    with a lazy mask (as after frame filtering), so that the array's shape and chunk sizes are unknown (nan) until
+    computed."""
     import dask.array as da
 
-    return da.from_array(np.asarray(X), chunks=(tuple(int(c) for c in chunks), X.shape[1]))
+    X = np.asarray(X)
+    if not unknown:
+        return da.from_array(X, chunks=(tuple(int(c) for c in chunks), X.shape[1]))
+    parts, sizes, a = [], [], 0
+    for c in chunks:
+        c = int(c)
+        parts.append(X[a:a + c].astype(float))
+        parts.append(np.full((1, X.shape[1]), 1e300))  # one row per block that the mask removes again
+        sizes.append(c + 1)
+        a += c
+    big = da.from_array(np.vstack(parts), chunks=(tuple(sizes), X.shape[1]))
+    return big[big[:, 0] < 1e299]
 
 
 def make_fa(case, **kw):
